@@ -73,6 +73,12 @@ def streams_for(prop):
         from fractions import Fraction
         S.append(dict(name="dsm", gen=gen_dsm.gen_dsm, impl=impl_dsm.run, oracle=ref_dsm.CHECKS[prop],
                       mode="spec", abs_tol=Fraction(1, 10 ** 9)))
+        if prop in ref_dsm.HISTORY_CHECKS:
+            # the same property on objects that are re-used: parameters and drivers changed, tables read, recomputed
+            import gen_dsmhist
+            import impl_dsmhist
+            S.append(dict(name="dsm-history", gen=gen_dsmhist.gen_dsmhist, impl=impl_dsmhist.run,
+                          oracle=ref_dsm.HISTORY_CHECKS[prop], mode="spec", abs_tol=Fraction(1, 10 ** 9)))
     elif prop == "C02":
         import gen_system
         import impl_system
